@@ -155,6 +155,16 @@ pub fn probe(bytes: &[u8], bufsize: Option<usize>) -> Probe {
                     (Whence::Current, i64::MAX, 0),
                     (Whence::Start, 0, u64::MAX),
                     (Whence::End, -1, 0),
+                    // relative seeks FROM the end of a stream whose (possibly corrupted) length is
+                    // close to 2^63 / 2^64: position + offset must not be computed blindly
+                    (Whence::Start, 0, *len),
+                    (Whence::Current, i64::MAX, 0),
+                    (Whence::End, 0, 0),
+                    (Whence::Current, i64::MAX, 0),
+                    (Whence::End, 0, 0),
+                    (Whence::Current, 1, 0),
+                    (Whence::Start, 0, *len - (*len).min(1)),
+                    (Whence::Current, i64::MAX, 0),
                 ] {
                     ops.push(Op::HSeek { h: 0, whence: w, off, uoff });
                     ops.push(Op::HRead { h: 0, n: 100 });
